@@ -20,7 +20,7 @@ TECHNIQUE = 'dense grid sweep + explicit boundary probing against NIST reference
 RULE = ('8 types x {forward, inverse, totality, boundaries, scaling}; grid blocks of 12,500 points; non-trivial = every grid block; distinct = '
         '(type, part, block)')
 ASSUMPTIONS = ['NIST inverse functions are only specified on their validity range; outside it only totality (no NaN) is required']
-REQUIRED = ['forward_points', 'inverse_points', 'boundary_probes', 'monotone_pairs', 'totality_points', 'scaling_points', 'through_channel']
+REQUIRED = ['purity_calls', 'forward_points', 'inverse_points', 'boundary_probes', 'monotone_pairs', 'totality_points', 'scaling_points', 'through_channel']
 TYPES = 'BEJKNRST'
 CODES = {'B': 10047, 'E': 10055, 'J': 10072, 'K': 10073, 'N': 10077, 'R': 10082, 'S': 10085, 'T': 10086}
 BANDS = {
@@ -220,7 +220,15 @@ def scaling(case, ctx):
     segs = M.build_file(random.Random(0), [('g', 'c', 'f64', len(inputs), props)], nseg=1, nchunks=(1,), values_fn=lambda p, t, n: inputs)
     through = TdmsFile.read(io.BytesIO(M.encode_file(segs)[0]))['g']['c'][:]
     ctx.count('through_channel')
-    for label, got in (('direct', sc.scale(inputs.copy())), ('channel', through)):
+    x = np.array(inputs, dtype='f8')
+    keep = x.tobytes()
+    direct = sc.scale(x)
+    ctx.count('purity_calls')
+    if x.tobytes() != keep:
+        ctx.violation('scaling/scale-modifies-its-input/%s' % L, {'direction': d})
+    elif not np.array_equal(np.asarray(direct), np.asarray(sc.scale(x)), equal_nan=True):
+        ctx.violation('scaling/second-scale-call-differs/%s' % L, {'direction': d})
+    for label, got in (('direct', direct), ('channel', through)):
         if d == 1:
             ok = np.abs(got - 1000.0 * Vmv) <= 1000.0 * (8 * np.finfo('f8').eps * bound) + 1e-300
             if not ok.all():
